@@ -672,7 +672,7 @@ def run_und(case, out):
 
 SUBCHECKS = [
     Sub("bn_history", run_bn, strategy=lambda tier: bn_history(30 if tier == "quick" else 80), n={"quick": 400, "thorough": 4000},
-        shards={"quick": 12, "thorough": 16}, doc="BayesianNetwork edit histories against a plain-Python model with a pool of live copies"),
+        shards={"quick": 12, "thorough": 16}, fuzz={"thorough": (2, 300)}, doc="BayesianNetwork edit histories against a plain-Python model with a pool of live copies"),
     Sub("construction", check_ctor, strategy=lambda tier: ctor_case(), n={"quick": 200, "thorough": 2000},
         shards={"quick": 1, "thorough": 2}, doc="DAG(ebunch) / BayesianNetwork(ebunch): cyclic edge lists rejected, acyclic ones reproduced"),
     Sub("dbn_history", run_dbn, strategy=lambda tier: dbn_history(), n={"quick": 150, "thorough": 2000},
